@@ -15,11 +15,12 @@ Positions == {"only", "first", "middle", "last"}
 Value(c, p) == CASE p = "only" -> c [] p = "first" -> c \o "yz" [] p = "middle" -> "ab" \o c \o "yz" [] p = "last" -> "ab" \o c
 IndexIn(p) == CASE p = "only" -> 0 [] p = "first" -> 0 [] p = "middle" -> 2 [] p = "last" -> 2
 Paths == {"print", "assign", "concat", "compare", "arg", "ret", "slice", "range", "subscript", "len", "file", "multi"}
-Origins == IF Quick THEN {"lit", "file"} ELSE {"lit", "raw", "file", "stdin", "cmd"}
+Origins == IF Quick THEN {"lit", "inline", "file"} ELSE {"lit", "inline", "raw", "file", "stdin", "cmd"}
 
 \* statements that bring the value into variable s (and a second, equal value into s2)
 Obtain(o, v) ==
   CASE o = "lit" -> <<Def1("s", StrL(v)), Def1("s2", StrL(v))>>
+    [] o = "inline" -> <<>>
     [] o = "raw" -> <<Def1("s", RawStr(v)), Def1("s2", RawStr(v))>>
     [] o = "file" -> <<Def1("s", ReadE(StrL("in.txt"))), Def1("s2", ReadE(StrL("in.txt")))>>
     [] o = "stdin" -> <<Def1("s", Input(NoneN)), Def1("s2", Input(NoneN))>>
@@ -30,35 +31,37 @@ World(o, v) ==
     [] o = "stdin" -> [fs |-> <<>>, stdin |-> <<v, v>>]
     [] o = "cmd" -> [fs |-> <<>>, stdin |-> <<v>>]
     [] OTHER -> [fs |-> <<>>, stdin |-> <<>>]
-Use(path, p) ==
-  CASE path = "print" -> <<Print1(Var("s")), PrintS(<<StrL("<"), Var("s"), StrL(">")>>)>>
-    [] path = "assign" -> <<Def1("t", Var("s")), VarDef(<<"u">>, "string", <<>>), Asg1("u", Var("t")), Print1(Var("u"))>>
-    [] path = "concat" -> <<Def1("t", Bin("+", Bin("+", StrL("<"), Var("s")), StrL(">"))), Print1(Var("t")), Compound("t", "+", Var("s")), Print1(Var("t"))>>
-    [] path = "compare" -> <<PrintS(<<CmpE("==", Var("s"), Var("s2")), CmpE("!=", Var("s"), Var("s2")), CmpE("==", Var("s"), StrL("other")), CmpE("!=", Bin("+", Var("s"), StrL("x")), Var("s2"))>>),
-                             Switch(Var("s"), <<CaseB(StrL("other"), <<Print1(StrL("wrong"))>>), CaseB(Var("s2"), <<Print1(StrL("same"))>>)>>, <<Print1(StrL("default"))>>, TRUE)>>
-    [] path = "arg" -> <<Func("show", <<Param("p", "string"), Param("q", "string")>>, <<>>, <<Print1(Var("q")), Print1(Var("p"))>>), ExprS(CallE("show", <<Var("s"), StrL("q")>>))>>
-    [] path = "ret" -> <<Func("give", <<Param("p", "string")>>, <<"string", "string">>, <<RetS(<<Var("p"), StrL("second")>>)>>), Def(<<"r1", "r2">>, <<CallE("give", <<Var("s")>>)>>), Print1(Var("r1")), Print1(Var("r2"))>>
-    [] path = "slice" -> <<Def1("a", SliceLit("string", <<StrL("zero"), Var("s")>>)), SetIdx("a", I(3), Var("s")), Print1(IndexE(Var("a"), I(1))), Print1(IndexE(Var("a"), I(3))), Print1(LenE(Var("a"))),
+\* S and S2 are the expressions that denote the value: variables (origins above) or the literal itself ("inline")
+Use(path, p, S, S2) ==
+  CASE path = "print" -> <<Print1(S), PrintS(<<StrL("<"), S, StrL(">")>>)>>
+    [] path = "assign" -> <<Def1("t", S), VarDef(<<"u">>, "string", <<>>), Asg1("u", Var("t")), Print1(Var("u"))>>
+    [] path = "concat" -> <<Def1("t", Bin("+", Bin("+", StrL("<"), S), StrL(">"))), Print1(Var("t")), Compound("t", "+", S), Print1(Var("t"))>>
+    [] path = "compare" -> <<PrintS(<<CmpE("==", S, S2), CmpE("!=", S, S2), CmpE("==", S, StrL("other")), CmpE("!=", Bin("+", S, StrL("x")), S2)>>),
+                             Switch(S, <<CaseB(StrL("other"), <<Print1(StrL("wrong"))>>), CaseB(S2, <<Print1(StrL("same"))>>)>>, <<Print1(StrL("default"))>>, TRUE)>>
+    [] path = "arg" -> <<Func("show", <<Param("p", "string"), Param("q", "string")>>, <<>>, <<Print1(Var("q")), Print1(Var("p"))>>), ExprS(CallE("show", <<S, StrL("q")>>))>>
+    [] path = "ret" -> <<Func("give", <<Param("p", "string")>>, <<"string", "string">>, <<RetS(<<Var("p"), StrL("second")>>)>>), Def(<<"r1", "r2">>, <<CallE("give", <<S>>)>>), Print1(Var("r1")), Print1(Var("r2"))>>
+    [] path = "slice" -> <<Def1("a", SliceLit("string", <<StrL("zero"), S>>)), SetIdx("a", I(3), S), Print1(IndexE(Var("a"), I(1))), Print1(IndexE(Var("a"), I(3))), Print1(LenE(Var("a"))),
                            RangeS("i", "e", Var("a"), <<PrintS(<<Var("i"), StrL("["), Var("e"), StrL("]")>>)>>)>>
-    [] path = "range" -> <<RangeS("i", "ch", Var("s"), <<PrintS(<<Var("i"), StrL("["), Var("ch"), StrL("]")>>)>>)>>
-    [] path = "subscript" -> <<PrintS(<<StrL("["), IndexE(Var("s"), I(IndexIn(p))), StrL("]")>>), PrintS(<<StrL("["), Substr(Var("s"), I(IndexIn(p)), I(IndexIn(p) + 1)), StrL("]")>>),
-                               Print1(Substr(Var("s"), NoneN, I(IndexIn(p) + 1))), Print1(Substr(Var("s"), I(IndexIn(p)), NoneN))>>
-    [] path = "len" -> <<PrintS(<<LenE(Var("s")), LenE(Bin("+", Var("s"), Var("s")))>>)>>
-    [] path = "file" -> <<WriteS(StrL("o.txt"), Var("s")), WriteA(StrL("o.txt"), Var("s"), BoolL(TRUE)), Print1(ReadE(StrL("o.txt"))), Print1(ExistsE(StrL("o.txt")))>>
-    [] path = "multi" -> <<Def(<<"m1", "m2">>, <<Var("s"), StrL("k")>>), Asg(<<"m1", "m2">>, <<Var("m2"), Var("m1")>>), PrintS(<<Var("m2")>>), PrintS(<<Var("m1")>>)>>
+    [] path = "range" -> <<RangeS("i", "ch", S, <<PrintS(<<Var("i"), StrL("["), Var("ch"), StrL("]")>>)>>)>>
+    [] path = "subscript" -> <<PrintS(<<StrL("["), IndexE(S, I(IndexIn(p))), StrL("]")>>), PrintS(<<StrL("["), Substr(S, I(IndexIn(p)), I(IndexIn(p) + 1)), StrL("]")>>),
+                               Print1(Substr(S, NoneN, I(IndexIn(p) + 1))), Print1(Substr(S, I(IndexIn(p)), NoneN))>>
+    [] path = "len" -> <<PrintS(<<LenE(S), LenE(Bin("+", S, S))>>)>>
+    [] path = "file" -> <<WriteS(StrL("o.txt"), S), WriteA(StrL("o.txt"), S, BoolL(TRUE)), Print1(ReadE(StrL("o.txt"))), Print1(ExistsE(StrL("o.txt")))>>
+    [] path = "multi" -> <<Def(<<"m1", "m2">>, <<S, StrL("k")>>), Asg(<<"m1", "m2">>, <<Var("m2"), Var("m1")>>), PrintS(<<Var("m2")>>), PrintS(<<Var("m1")>>)>>
 Mk(c, p, path, o) == [id |-> "C08/" \o path \o "/" \o o \o "/" \o p \o "/x" \o Hex(CodeOf(c)),
-                      prog |-> [body |-> Obtain(o, Value(c, p)) \o Use(path, p), world |-> World(o, Value(c, p))],
+                      prog |-> [body |-> Obtain(o, Value(c, p)) \o (IF o = "inline" THEN Use(path, p, StrL(Value(c, p)), StrL(Value(c, p))) ELSE Use(path, p, Var("s"), Var("s2"))), world |-> World(o, Value(c, p))],
                       check |-> <<"fs">>]
 \* a newline inside a value obtained from stdin or as the last character of a file is not a value of those origins
+LegalPath(path, o) == ~(o = "inline" /\ path = "subscript")          \* a literal cannot be subscripted in the grammar
 Legal(c, p, o) == ~(c = "\n" /\ (o = "stdin" \/ (o \in {"file", "cmd"} /\ p \in {"last", "only"}))) /\ ~(o = "raw" /\ c = "`")
 
 \* whole values named in the property: leading dashes, glob characters, leading/trailing/repeated blanks, things a shell would execute
 Specials == <<"-n", "-e", "-E", "-n x", "-", "--", "-ne", "*", " * ", "?", "[a]", "a  b", "   ", " lead", "trail ", "  two  ", "~", "~root", "#c", "a #c", "a;b", "a&b", "a|b", "a>b", "a<b", "(a)", "{a,b}", "!x", "a=b", "x y z", "%s", "\\n",
               "$HOME", "${PATH}", "$(touch CANARY)", "`touch CANARY`", "a;touch CANARY", "&& touch CANARY", "| touch CANARY", "> CANARY", "\"; touch CANARY; \"", "'q'", "it's", "1 -eq 1", "0", "", "-1", "true">>
 MkS(i, path, o) == [id |-> "C08s/" \o path \o "/" \o o \o "/v" \o ToString(i),
-                    prog |-> [body |-> Obtain(o, Specials[i]) \o Use(path, "only"), world |-> World(o, Specials[i])], check |-> <<"fs">>]
+                    prog |-> [body |-> Obtain(o, Specials[i]) \o (IF o = "inline" THEN Use(path, "only", StrL(Specials[i]), StrL(Specials[i])) ELSE Use(path, "only", Var("s"), Var("s2"))), world |-> World(o, Specials[i])], check |-> <<"fs">>]
 SpecialCases == {MkS(i, path, o) : i \in {j \in 1..Len(Specials) : Specials[j] # ""} , path \in Paths \ {"subscript"}, o \in Origins}
-                \cup {MkS(i, path, o) : i \in {j \in 1..Len(Specials) : Specials[j] = ""}, path \in Paths \ {"subscript", "range"}, o \in Origins \ {"stdin", "file", "cmd"}}
-ASSUME ndJsonSerialize("fam.ndjson", SetToSeq(UNION {IF Legal(t[1], t[2], t[3]) THEN {Mk(t[1], t[2], path, t[3]) : path \in Paths} ELSE {}
+                \cup {MkS(i, path, o) : i \in {j \in 1..Len(Specials) : Specials[j] = ""}, path \in Paths \ {"subscript", "range"}, o \in Origins \ {"stdin", "file", "cmd", "inline"}}
+ASSUME ndJsonSerialize("fam.ndjson", SetToSeq(UNION {IF Legal(t[1], t[2], t[3]) THEN {Mk(t[1], t[2], path, t[3]) : path \in {q \in Paths : LegalPath(q, t[3])}} ELSE {}
                                                     : t \in Chars \X Positions \X Origins} \cup SpecialCases))
 =============================================================================
